@@ -164,8 +164,8 @@ Ltac eqbs :=
          end.
 Ltac bools_of f :=
   repeat match goal with
-         | H : context [?p f] |- _ => match type of (p f) with bool => destruct (p f) eqn:? end
-         | |- context [?p f] => match type of (p f) with bool => destruct (p f) eqn:? end
+         | H : context [?p f] |- _ => match type of (p f) with bool => destruct (p f) end
+         | |- context [?p f] => match type of (p f) with bool => destruct (p f) end
          end.
 Ltac finish := cbn in *; try discriminate; try congruence; try lia; intuition (try discriminate; try congruence; try lia).
 
